@@ -129,9 +129,9 @@ class TransformedTargetForecaster(
         -------
         self : returns an instance of self.
         """
-        self.steps_ = self._check_steps()
         self._set_y_X(y, X)
         self._set_fh(fh)
+        self.steps_ = self._check_steps()
 
         # transform
         yt = check_y(y)
